@@ -1,5 +1,3 @@
-(* C19 - assembled by tools/assemble_props.py from Properties_C19bfile.v (build-description loader, dependency-file parsers) and the
-   c19_* theorems of Properties_c17lex.v (Ninja lexer: termination, bounds, tiling, EndOfFile).  Statements only. *)
 (* C19 - no input can crash, hang or over-read a parser.
    Only theorem statements; each is closed by [exact <lemma>] and followed by Print Assumptions.
 
@@ -107,117 +105,3 @@ Print Assumptions c19_depinfo_positions_in_bounds.
    Props/Properties_c17lex.v by the lexer area; re-export lines go here once Parse/NinjaLexProofs exports the C19
    theorems under stable names. *)
 (* end of re-exports *)
-
-(* ---------------------------------------------------------------- Ninja lexer part *)
-Module Lex.
-From LLB Require Import Base.Bytes Parse.NinjaLex Parse.NinjaLexProofs Path.ShellQuote Path.ShellQuoteProofs
-  gen.Gen_NinjaKeywords gen.Gen_ShellWhitelist.
-Local Open Scope N_scope.
-
-
-(* ================================ C19: the lexer terminates, stays inside the buffer, tiles it ================ *)
-
-(* no lex call runs out of fuel: from any state, in any mode *)
-Theorem c19_lex_total : forall m s, exists t s', lex m s = Ok (t, s').
-Proof. exact lex_total. Qed.
-Print Assumptions c19_lex_total.
-
-(* lex_progress: EndOfFile with the cursor at the very end, or a non-empty token and a strictly larger position *)
-Theorem c19_lex_progress : forall data m s t s', at_data data s -> lex m s = Ok (t, s') ->
-  (tk_kind t = TkEndOfFile /\ tk_len t = 0%nat /\ tk_start t = length data /\ l_pos s' = length data /\ l_rest s' = []) \/
-  (tk_kind t <> TkEndOfFile /\ (0 < tk_len t)%nat /\ (l_pos s < l_pos s')%nat /\ (l_pos s' <= length data)%nat).
-Proof. exact lex_progress. Qed.
-Print Assumptions c19_lex_progress.
-
-Theorem c19_lex_call_facts : forall data m s t s', at_data data s -> lex m s = Ok (t, s') ->
-  at_data data s' /\ (l_pos s <= tk_start t)%nat /\ l_pos s' = (tk_start t + tk_len t)%nat /\
-  (l_pos s' <= length data)%nat /\
-  gap_units (slice data (l_pos s) (tk_start t)) /\ token_facts data m t.
-Proof. exact lex_call_facts. Qed.
-Print Assumptions c19_lex_call_facts.
-
-(* end-of-file is reported only at the true end of the buffer, and always there *)
-Theorem c19_lex_eof_iff_at_end : forall data m s t s', at_data data s -> lex m s = Ok (t, s') ->
-  (tk_kind t = TkEndOfFile <-> tk_start t = length data).
-Proof. exact lex_eof_iff_at_end. Qed.
-Print Assumptions c19_lex_eof_iff_at_end.
-
-(* lex_all_total: ~ OutOfFuel for ALL byte strings and all modes *)
-Theorem c19_lex_all_total : forall m data, exists toks, lex_all m data = Ok toks.
-Proof. exact lex_all_total. Qed.
-Print Assumptions c19_lex_all_total.
-
-Theorem c19_lex_stream_total : forall modes data, exists toks, lex_stream modes data = Ok toks.
-Proof. exact lex_stream_total. Qed.
-Print Assumptions c19_lex_stream_total.
-
-Theorem c19_lex_stream_length : forall modes data toks, lex_stream modes data = Ok toks -> length toks = length modes.
-Proof. exact lex_stream_length. Qed.
-Print Assumptions c19_lex_stream_length.
-
-(* lex_all is a lex_stream with a constant mode sequence (every lex_stream theorem applies) that ends at the first
-   EndOfFile *)
-Theorem c19_lex_all_stream : forall m data toks, lex_all m data = Ok toks ->
-  lex_stream (repeat m (length toks)) data = Ok toks /\ eof_last toks.
-Proof. exact lex_all_stream. Qed.
-Print Assumptions c19_lex_all_stream.
-
-(* in bounds + ordered + gaps blank, for an adversarial mode sequence *)
-Theorem c19_lex_stream_chain : forall modes data toks, lex_stream modes data = Ok toks -> tok_chain data 0 toks.
-Proof. exact lex_stream_chain. Qed.
-Print Assumptions c19_lex_stream_chain.
-
-Theorem c19_lex_in_bounds : forall modes data toks t, lex_stream modes data = Ok toks -> In t toks ->
-  (tk_start t + tk_len t <= length data)%nat.
-Proof. exact lex_in_bounds. Qed.
-Print Assumptions c19_lex_in_bounds.
-
-(* lex_tokens_ordered + lex_gaps_blank *)
-Theorem c19_lex_tokens_ordered : forall modes data l1 t1 t2 l2, lex_stream modes data = Ok (l1 ++ t1 :: t2 :: l2) ->
-  (tk_start t1 + tk_len t1 <= tk_start t2)%nat /\ gap_units (slice data (tk_start t1 + tk_len t1) (tk_start t2)).
-Proof. exact lex_tokens_ordered. Qed.
-Print Assumptions c19_lex_tokens_ordered.
-
-Theorem c19_lex_gaps_blank : forall modes data l1 t1 t2 l2, lex_stream modes data = Ok (l1 ++ t1 :: t2 :: l2) ->
-  gap_units (slice data (tk_start t1 + tk_len t1) (tk_start t2)).
-Proof. exact lex_gaps_blank. Qed.
-Print Assumptions c19_lex_gaps_blank.
-
-Theorem c19_lex_first_gap : forall modes data t ts, lex_stream modes data = Ok (t :: ts) -> gap_units (slice data 0 (tk_start t)).
-Proof. exact lex_first_gap. Qed.
-Print Assumptions c19_lex_first_gap.
-
-(* the exact set of byte sequences a gap is made of *)
-Theorem c19_gap_units_inv : forall c, gap_units c ->
-  c = [] \/ (exists b r, c = b :: r /\ is_nn_space b = true /\ gap_units r) \/
-  (exists r, c = 36 :: 10 :: r /\ gap_units r) \/ (exists r, c = 36 :: 10 :: 13 :: r /\ gap_units r) \/
-  (exists r, c = 36 :: 13 :: 10 :: r /\ gap_units r).
-Proof. exact gap_units_inv. Qed.
-Print Assumptions c19_gap_units_inv.
-
-(* no byte is lost or duplicated: gaps and token bodies in order are exactly the bytes the calls went over *)
-Theorem c19_lex_stream_tiles : forall modes data toks, lex_stream modes data = Ok toks ->
-  data = rebuild data 0 toks ++ skipn (toks_end 0 toks) data /\ toks_end 0 toks = length (rebuild data 0 toks).
-Proof. exact lex_stream_tiles. Qed.
-Print Assumptions c19_lex_stream_tiles.
-
-(* the tokens of lex_all tile the whole input and the last one (EndOfFile) ends at length data *)
-Theorem c19_lex_all_tiles : forall m data toks, lex_all m data = Ok toks ->
-  rebuild data 0 toks = data /\ toks_end 0 toks = length data /\ tok_chain data 0 toks.
-Proof. exact lex_all_tiles. Qed.
-Print Assumptions c19_lex_all_tiles.
-
-(* lex_eof_only_at_end, and every other token is non-empty *)
-Theorem c19_lex_eof_only_at_end : forall modes data toks t, lex_stream modes data = Ok toks -> In t toks ->
-  (tk_kind t = TkEndOfFile -> tk_start t = length data /\ tk_len t = 0%nat) /\
-  (tk_kind t <> TkEndOfFile -> (0 < tk_len t)%nat).
-Proof. exact lex_eof_only_at_end. Qed.
-Print Assumptions c19_lex_eof_only_at_end.
-
-(* the full lexical description of every token of a stream *)
-Theorem c19_lex_stream_token_facts : forall modes data toks, lex_stream modes data = Ok toks ->
-  Forall2 (token_facts data) modes toks.
-Proof. exact lex_stream_token_facts. Qed.
-Print Assumptions c19_lex_stream_token_facts.
-
-End Lex.
